@@ -8,12 +8,15 @@ import (
 )
 
 func (p *Pool) Run(ctx context.Context) {
+	verifhook.At("wpool.run.enter")
 	if !p.runM.TryLock() {
 		slog.Warn("worker pool already running")
 		return
 	}
+	verifhook.At("wpool.run.afterTryLock")
 
 	p.ctx, p.cancel = context.WithCancel(ctx)
+	verifhook.At("wpool.run.afterCtx")
 	p.ch = make(chan Event, p.opts.NumWorkers*2) //nolint:mnd
 	for range p.opts.NumWorkers {
 		p.runWg.Add(1)
@@ -22,7 +25,9 @@ func (p *Pool) Run(ctx context.Context) {
 }
 
 func (p *Pool) run() {
+	defer verifhook.At("wpool.worker.exited")
 	defer p.runWg.Done()
+	verifhook.At("wpool.worker.start")
 	for {
 		select {
 		case <-p.ctx.Done():
